@@ -130,6 +130,10 @@ def hostile_selectors(rng, model: sites.SiteModel, full: bool, n: int, outside_a
         for sl in ("/", "\uff0f", "\u2215"):
             for depth in (1, 2):
                 out.append((b"/" + (dd + sl).encode("utf-8") * depth + b"outside-secret.txt", False, "unicode-lookalike"))
+    # every outside target (each is named so that some handler would claim it by its suffix) behind the plainest climbs
+    for tgt in outside_targets:
+        for pre in (b"/../", b"/../../", b"/umn/../../"):
+            out.append((pre + tgt, False, "climb-to-each-outside-target"))
     return out
 
 
